@@ -184,6 +184,20 @@ def stream_common(ctx, prog):
         g0 = strip(sy.operand(ft["args"][0]))
         ok = ok and is_param(g0, "generator")
     ctx.ob(R, "hash_stream_common: the read loop is left (to finalize) only when read returned 0", ok, why, f.loc())
+    # every hash it returns is the finaliser's result (no constant / locally built answer that skips finalisation and its
+    # declared-size check)
+    oks = []
+    for i, j, s in f.stmts():
+        if s["s"] == "assign" and s["lhs"]["l"] == 0 and s["rv"]["r"] == "agg" and s["rv"]["kind"].get("variant") == "Ok":
+            oks.append(strip(sy.operand(s["rv"]["ops"][0])))
+    good = []
+    for e in oks:
+        r, names = fpath(e)
+        if names == ("<Continue>", "0") and r[0] == "call" and "branch" in r[1] and strip(r[2][0])[0] == "call" and "Generator::finalize" in strip(r[2][0])[1] and \
+                is_param(strip(strip(r[2][0])[2][0]), "generator"):
+            good.append(e)
+    ctx.ob(R, "hash_stream_common: the only Ok value is the result of finalize(generator)", len(oks) == 1 and len(good) == 1,
+           "Ok payloads: %s" % [show(e)[:80] for e in oks], f.loc())
     return len(found)
 
 
